@@ -33,6 +33,7 @@ impl Check for C01 {
             "probe.long-run-output>64KiB",
             "probe.long-run-without-exact-prediction",
             "probe.model-allowed-set-wider-than-one",
+            "probe.print-char-instantiation",
             "probe.real-loop-fatal",
             "probe.real-loop-runs",
             "probe.recoverable-error",
@@ -63,6 +64,10 @@ impl Check for C01 {
     }
 
     fn generate(&self, g: &mut Xo, tier: Tier, run: u64) -> VmSc {
+        if (20..32).contains(&run) {
+            // one-character prints (also run through `PrintChar::<c>`)
+            return vmgen::gen_print_char((run - 20) as usize);
+        }
         if run >= 100 && run < 100 + vmgen::operand_cells() as u64 {
             // the enumerated operand grid: every int / float instruction x every ordered pair of boundary literals
             return vmgen::gen_operand_cell((run - 100) as usize);
